@@ -192,6 +192,19 @@ def mon_c14(f):
 
 def mon_c15(f):
     out = []
+    fin0 = f.rec.get("final0")
+    if fin0:
+        # the link has ended, its context is cancelled, its reads fail; some handlers are still inside application code
+        alive = {n: s for n, s in fin0["threads"].items() if s not in ("done", "@handler.gate")}
+        inapp = sorted(n for n, s in fin0["threads"].items() if s == "@handler.gate")
+        if alive:
+            out.append("after teardown (handlers %s still inside application code) these goroutines have not exited: %s" % (inapp, alive))
+        if fin0["pending"] != 0:
+            out.append("after teardown (handlers %s still inside application code) %d pending-call entries remain" % (inapp, fin0["pending"]))
+        if fin0["closures"] != 0:
+            out.append("after teardown (handlers %s still inside application code) %d closure registrations remain" % (inapp, fin0["closures"]))
+        if fin0["remotes"] != 0:
+            out.append("after teardown the remote is still enumerated while handlers %s are still inside application code (the link has ended, its transport reads have returned)" % inapp)
     fin = f.rec.get("final")
     if fin:
         alive = {n: s for n, s in fin["threads"].items() if s != "done"}
